@@ -287,13 +287,15 @@ theorem C03_apply_verifies_kw (src rcv : AadCtx) (prot kid : Bytes) (kek cek : K
 
 end
 
-/-- **Alterations of the security-source text are noticed, up to the codec's normalisation.** The AAD is
+/-- **Alterations of the security-source text are noticed, up to the codec's normalisation** (partial
+    form of "any change to bound content is detected": what is missing is exactly the normalised
+    cases, see `C03_eid_normalisation_counterexample`). The AAD is
     built from the decoded-and-re-encoded source text `norm a` of the received text `a`. Two received
     texts give the same AAD only if the normalisation identifies them; with `norm = knownEidNorm`
     (TAB / CR / LF removed, '/' appended to a bare authority) nothing else goes unnoticed – in
     particular a trailing '?' or '#' does (examples below). The normalised cases themselves are a
     weakness of the implementation (the received octets are not what is authenticated). -/
-theorem C03_source_text_noticed (crcFn : Nat → Bytes → Bytes) (norm : Bytes → Bytes) (x : AadCtx) (a b : Bytes)
+theorem C03_source_text_noticed_partial (crcFn : Nat → Bytes → Bytes) (norm : Bytes → Bytes) (x : AadCtx) (a b : Bytes)
     (v w : View)
     (hx : coveredView crcFn { x with ssrc := .dtn (norm a) } = some v)
     (hy : coveredView crcFn { x with ssrc := .dtn (norm b) } = some w)
@@ -305,6 +307,21 @@ theorem C03_source_text_noticed (crcFn : Nat → Bytes → Bytes) (norm : Bytes 
   have h2 := coveredView_ssrc hy
   rw [hvw, h2] at h1
   simpa using h1.symm
+
+/-- **Counterexample to the full property (known finding, D20 family).** Two *different* received
+    security-source texts – `//node` (trailing '/' dropped) and `//no<TAB>de/` against the original
+    `//node/` – are decoded and re-encoded to the same text, so every context gives them the same
+    external AAD and hence the same MAC input: the alteration of covered octets verifies. The
+    harness replays this on the implementation (`C03:eid-normalised-alteration-verifies`). -/
+theorem C03_eid_normalisation_counterexample :
+    ∃ a b : Bytes, a ≠ b ∧ knownEidNorm a = knownEidNorm b ∧
+      ∀ (crcFn : Nat → Bytes → Bytes) (x : AadCtx) (context : String) (prot : Bytes),
+        macInput crcFn { x with ssrc := .dtn (knownEidNorm a) } context prot =
+        macInput crcFn { x with ssrc := .dtn (knownEidNorm b) } context prot := by
+  refine ⟨ascii "//node", ascii "//node/", by decide, by decide, ?_⟩
+  intro crcFn x context prot
+  have h : knownEidNorm (ascii "//node") = knownEidNorm (ascii "//node/") := by decide
+  rw [h]
 
 /-- what the known normalisation identifies with `//node/`, and what it does not -/
 example : knownEidNorm (ascii "//node") = ascii "//node/" ∧ knownEidNorm (ascii "//no\tde/") = ascii "//node/" ∧
